@@ -4,9 +4,6 @@ package main
 
 import (
 	"fmt"
-	"os"
-	"path/filepath"
-	"sort"
 	"strconv"
 	"strings"
 	"unicode/utf8"
@@ -477,31 +474,6 @@ func c11Stats(cases []string) map[string]int {
 	return st
 }
 
-// c11Corpus reads /verif/corpus/C11/*.case relative to the binary (/verif/work/bin/corr_C11).
-// main.go looks for the corpus relative to the output directory and, for work/C11/corr, ends up in
-// work/corpus; until that is repaired the property loads its own corpus so the past failures
-// really are re-run first.
-func c11Corpus() []string {
-	exe, err := os.Executable()
-	if err != nil {
-		return nil
-	}
-	root := filepath.Dir(filepath.Dir(filepath.Dir(exe)))
-	files, _ := filepath.Glob(filepath.Join(root, "corpus", "C11", "*.case"))
-	sort.Strings(files)
-	var out []string
-	for _, f := range files {
-		b, _ := os.ReadFile(f)
-		for _, l := range strings.Split(string(b), "\n") {
-			l = strings.TrimSpace(l)
-			if l != "" && !strings.HasPrefix(l, "#") {
-				out = append(out, strings.TrimPrefix(l, "C11 "))
-			}
-		}
-	}
-	return out
-}
-
 func init() {
-	Register("C11", &Prop{Gen: c11Gen, Run: c11Run, Stats: c11Stats, Corpus: c11Corpus()})
+	Register("C11", &Prop{Gen: c11Gen, Run: c11Run, Stats: c11Stats})
 }
